@@ -34,6 +34,7 @@ import (
 	internalConfig "github.com/vektra/mockery/v3/internal/config"
 	"github.com/vektra/mockery/v3/internal/logging"
 	"github.com/vektra/mockery/v3/internal/stackerr"
+	"github.com/vektra/mockery/v3/internal/verifhook"
 	"github.com/vektra/mockery/v3/template_funcs"
 	"golang.org/x/tools/go/packages"
 )
@@ -301,7 +302,9 @@ func mergeConfigs(ctx context.Context, src Config, dest *Config) {
 func (c *RootConfig) Initialize(ctx context.Context) error {
 	log := zerolog.Ctx(ctx)
 	recursivePackages := []string{}
+	verifhook.Emit("InitBegin", "npkgs", len(c.Packages))
 	for pkgName, pkgConfig := range c.Packages {
+		verifhook.Emit("InitPkg", "pkg", pkgName)
 		if pkgConfig == nil {
 			pkgConfig = NewPackageConfig()
 			c.Packages[pkgName] = pkgConfig
@@ -328,6 +331,7 @@ func (c *RootConfig) Initialize(ctx context.Context) error {
 		pkgLog := log.With().Str(logging.LogKeyPackagePath, recursivePackageName).Logger()
 		pkgCtx := pkgLog.WithContext(ctx)
 		pkgLog.Debug().Msg("package marked as recursive")
+		verifhook.Emit("Recursive", "pkg", recursivePackageName)
 
 		subpkgs, err := c.subPackages(recursivePackageName)
 		if err != nil {
@@ -337,18 +341,22 @@ func (c *RootConfig) Initialize(ctx context.Context) error {
 		for _, subpkg := range subpkgs {
 			if c.ShouldExcludeSubpkg(subpkg) {
 				pkgLog.Debug().Msg("package was marked for exclusion")
+				verifhook.Emit("Exclude", "parent", recursivePackageName, "sub", subpkg)
 				continue
 			}
 			var subPkgConfig *PackageConfig
 			if existingSubPkg, exists := c.Packages[subpkg]; exists {
 				subPkgConfig = existingSubPkg
+				verifhook.Emit("Inject", "parent", recursivePackageName, "sub", subpkg, "existed", true)
 			} else {
 				subPkgConfig = NewPackageConfig()
+				verifhook.Emit("Inject", "parent", recursivePackageName, "sub", subpkg, "existed", false)
 			}
 			mergeConfigs(pkgCtx, *parentPkgConfig.Config, subPkgConfig.Config)
 			c.Packages[subpkg] = subPkgConfig
 		}
 	}
+	verifhook.Emit("InitEnd", "npkgs", len(c.Packages))
 	return nil
 }
 
@@ -650,7 +658,9 @@ func (c *Config) ParseTemplates(ctx context.Context, iface *Interface, srcPkg *p
 
 	changesMade := true
 	for i := 0; changesMade; i++ {
+		verifhook.Emit("ResolveIter", "i", i)
 		if i >= 20 {
+			verifhook.Emit("ResolveLoop", "iface", interfaceName)
 			log.Error().Msg("infinite loop in template variables detected")
 			for key, val := range templateMap {
 				l := log.With().Str("variable-name", key).Str("variable-value", *val).Logger()
@@ -682,6 +692,7 @@ func (c *Config) ParseTemplates(ctx context.Context, iface *Interface, srcPkg *p
 		}
 	}
 
+	verifhook.Emit("Resolved", "iface", interfaceName, "dir", *c.Dir, "filename", *c.FileName, "pkgname", *c.PkgName, "structname", *c.StructName, "schema", *c.TemplateSchema)
 	return nil
 }
 
